@@ -113,15 +113,28 @@ class BuildResult:
         self.cmd = ''
 
 
-def build_coq(jobs=NPROC):
-    """Regenerate Gen/Generated.v from /repo and run the full .vo build (under a lock)."""
-    res = BuildResult()
+_prepared = False
+
+
+def prepare():
+    """Runs against a scratch copy of the repository work on a private rsync'ed copy of the Coq development."""
+    global _prepared
+    if _prepared:
+        return
+    _prepared = True
     if COQ != SHARED_COQ:
         os.makedirs(COQ, exist_ok=True)
         with open(os.path.join(SHARED_COQ, '.build.lock'), 'a') as lk:     # consistent snapshot of the shared development
             fcntl.flock(lk, fcntl.LOCK_EX)
             subprocess.run(['rsync', '-a', '--delete', '--exclude', 'cases/', SHARED_COQ + '/', COQ + '/'], check=True, timeout=600)
     os.makedirs(os.path.join(COQ, 'cases'), exist_ok=True)
+
+
+def build_coq(jobs=NPROC, targets=None):
+    """Regenerate Gen/Generated.v from /repo and run the .vo build (under a lock): everything (targets=None, what
+    MANIFEST.setup_cmd does) or the given .vo targets with all they depend on (what a single property's check needs)."""
+    res = BuildResult()
+    prepare()
     try:
         g = subprocess.run([PY, os.path.join(HERE, 'gen_constants.py')], env=IMPL_ENV, capture_output=True, text=True, timeout=300)
         res.gen_rc = g.returncode
@@ -129,7 +142,7 @@ def build_coq(jobs=NPROC):
         if g.returncode != 0:
             return res
         res.cmd = 'harness/build.sh  (coq_makefile -f _CoqProject && make -j%d; full .vo build, Coq 8.16.1)' % jobs
-        b = subprocess.run([os.path.join(HERE, 'build.sh'), '-k'], env=dict(os.environ, BUILD_JOBS=str(jobs), VERIF_COQ_DIR=COQ), capture_output=True, text=True, timeout=3600)
+        b = subprocess.run([os.path.join(HERE, 'build.sh'), '-k'] + list(targets or []), env=dict(os.environ, BUILD_JOBS=str(jobs), VERIF_COQ_DIR=COQ), capture_output=True, text=True, timeout=3600)
         res.log += b.stdout + b.stderr
         res.ok = b.returncode == 0
         res.failed_files = re.findall(r'^File "\./([^"]+)", line', b.stdout + b.stderr, re.M)
